@@ -664,7 +664,13 @@ def enclosing_tests(node: ast.AST, stop: Optional[ast.AST] = None, guards: bool 
         if isinstance(anc, (ast.FunctionDef, ast.AsyncFunctionDef, ast.Lambda)):
             break
         child = anc
-    return out
+    # one spelling per decision: `not X` known to hold  ==  X known not to hold
+    canon = []
+    for t, pol in out:
+        while isinstance(t, ast.UnaryOp) and isinstance(t.op, ast.Not):
+            t, pol = t.operand, not pol
+        canon.append((t, pol))
+    return canon
 
 
 def conjuncts(test: ast.expr) -> list[ast.expr]:
@@ -907,3 +913,23 @@ def branch_blocks(iff: ast.If) -> tuple[list[ast.stmt], list[ast.stmt]]:
     if orelse and always_exits(orelse) and not always_exits(body):
         return body + following, orelse
     return body, orelse
+
+
+def knows(tests, text: str, pol: bool = True) -> bool:
+    """``tests`` (as returned by enclosing_tests / raise_conditions) contain the decision
+    ``text`` with polarity ``pol``; both sides are compared in canonical form, so
+    knows(ts, "not x.empty") == knows(ts, "x.empty", False)."""
+    from .paths import canon_test
+
+    want_t, want_p = canon_test(ast.parse(text, mode="eval").body, pol)
+    wt = norm(want_t)
+    for t, p_ in tests:
+        ct, cp = canon_test(t, p_)
+        if norm(ct) == wt and cp == want_p:
+            return True
+    return False
+
+
+def only_knows(tests, text: str, pol: bool = True) -> bool:
+    """Exactly that one decision is known."""
+    return len(tests) == 1 and knows(tests, text, pol)
